@@ -62,3 +62,18 @@ contract("qubovert._puso:PUSO.to_quso", props=["C04", "C19"],
          instances=[{"self": "model:" + c, "lam": "none", "pairs": "none"} for c in ("PUSO", "PCSO")],
          requires=_REQ + ["self._degree <= 2", "deg2(self)"], returns="fresh:model:QUSOMatrix",
          ensures=["asden(result) == sden(self)", "wf(result)", "isfresh(result)", "typeis(result, 'QUSOMatrix')"])
+
+# to_enumerated dispatches on the class name: to_qubo / to_quso / to_puso here (to_pubo of PUBO / PCBO goes through
+# the degree-reduction routine, which is not under contract)
+for cls, ens, rt in (("QUBO", "aden(result) == bden(self)", "QUBOMatrix"),
+                     ("QUSO", "asden(result) == sden(self)", "QUSOMatrix"),
+                     ("PUSO", "asden(result) == sden(self)", "PUSOMatrix"),
+                     ("PCSO", "asden(result) == sden(self)", "PUSOMatrix")):
+    pass
+contract("qubovert.utils._bo_parentclass:BO.to_enumerated", props=["C04", "C19"],
+         instances=[{"self": "model:" + c} for c in ("QUBO", "QUSO", "PUSO", "PCSO")],
+         requires=_REQ,
+         returns=lambda env, eng: "fresh:model:" + {"QUBO": "QUBOMatrix", "QUSO": "QUSOMatrix"}.get(env["self"].cls.name, "PUSOMatrix"),
+         ensures=["(asden(result) == sden(self)) if isspin(self) else (aden(result) == bden(self))", "wf(result)", "isfresh(result)",
+                  "typeis(result, 'QUBOMatrix') if typeis(self, 'QUBO') else (typeis(result, 'QUSOMatrix') if typeis(self, 'QUSO') "
+                  "else typeis(result, 'PUSOMatrix'))"])
